@@ -44,6 +44,8 @@ from typing import Callable
 from typing import Optional
 
 from liquid import CachingDictLoader
+from liquid import CachingFileSystemLoader
+from liquid import FileSystemLoader
 from liquid import DictLoader
 from liquid.stream import TokenStream
 
@@ -513,4 +515,49 @@ class CountingCachingLoader(CachingDictLoader):
         self.loads += 1
         if self.loads > self.budget:
             raise StepBudgetExceeded("template-loads", f"loads={self.loads} budget={self.budget}")
+        return await super().load_async(env, name, **kwargs)
+
+
+class CountingFileSystemLoader(FileSystemLoader):
+    """FileSystemLoader (templates get a real ``path`` below the search path, every include /
+    render / extends re-reads and re-parses the file) that counts source look-ups."""
+
+    def __init__(self, search_path: str):
+        super().__init__(search_path)
+        self.loads = 0
+        self.budget = 1 << 60
+
+    def _count(self) -> None:
+        self.loads += 1
+        if self.loads > self.budget:
+            raise StepBudgetExceeded("template-loads", f"loads={self.loads} budget={self.budget}")
+
+    def get_source(self, env: Any, template_name: str, **kwargs: Any) -> Any:  # type: ignore[override]
+        self._count()
+        return super().get_source(env, template_name, **kwargs)
+
+    async def get_source_async(self, env: Any, template_name: str, **kwargs: Any) -> Any:  # type: ignore[override]
+        self._count()
+        return await super().get_source_async(env, template_name, **kwargs)
+
+
+class CountingCachingFileSystemLoader(CachingFileSystemLoader):
+    """CachingFileSystemLoader that counts ``load`` calls (harness frame only during the look-up)."""
+
+    def __init__(self, search_path: str):
+        super().__init__(search_path)
+        self.loads = 0
+        self.budget = 1 << 60
+
+    def _count(self) -> None:
+        self.loads += 1
+        if self.loads > self.budget:
+            raise StepBudgetExceeded("template-loads", f"loads={self.loads} budget={self.budget}")
+
+    def load(self, env: Any, name: str, **kwargs: Any) -> Any:  # type: ignore[override]
+        self._count()
+        return super().load(env, name, **kwargs)
+
+    async def load_async(self, env: Any, name: str, **kwargs: Any) -> Any:  # type: ignore[override]
+        self._count()
         return await super().load_async(env, name, **kwargs)
